@@ -122,7 +122,8 @@ def check_mpl_1d(case, ctx: Ctx):
             for i, s in enumerate(segs):
                 lo, hi = sorted([s[0][1], s[1][1]])
                 et = 1e-6 if h.dtype.itemsize < 8 else 1e-9  # float32 / float16 contents carry their own rounding
-                require(close(s[0][0], centers[i]) and close(lo, data[i] - err[i], et) and close(hi, data[i] + err[i], et), "errorbar_span",
+                scale = max(abs(float(data[i])), abs(float(err[i])), 1e-300)  # (value - error cancels: tolerance relative to the operands)
+                require(close(s[0][0], centers[i]) and abs(lo - (data[i] - err[i])) <= et * scale and abs(hi - (data[i] + err[i])) <= et * scale, "errorbar_span",
                         f"bin {i}: segment {s.tolist()} expected x={centers[i]!r} y={data[i] - err[i]!r}..{data[i] + err[i]!r}")
         # ---- value labels
         if opts.get("show_values") and kind in ("bar", "scatter", "line", "step"):
